@@ -99,8 +99,8 @@ impl Ct {
     }
     #[sv::msg(reply)]
     #[allow(deprecated)]
-    fn on_reply(&self, ctx: sylvia::types::ReplyCtx, msg: Reply) -> StdResult<Response> {
-        ran(ctx.deps.storage, &format!("on_reply#{}", msg.id));
+    fn on_reply2(&self, ctx: sylvia::types::ReplyCtx, msg: Reply) -> StdResult<Response> {
+        ran(ctx.deps.storage, &format!("on_reply2#{}", msg.id));
         Ok(Response::new())
     }
 }
